@@ -322,6 +322,11 @@ impl<Aux> Vm<'_, Aux> {
                         .checked_sub(arity)
                         .ok_or(ExecutionErrorPayload::MissingArgument)?,
                     closure,
+                    closure_object: if closure.is_null() {
+                        std::ptr::null_mut()
+                    } else {
+                        obj.as_ptr()
+                    },
                 })
                 .map_err(|_| ExecutionErrorPayload::CallStackOverflow)?;
         }
@@ -772,6 +777,7 @@ impl<Aux> Vm<'_, Aux> {
                 dst_instr_ptr: 0,
                 stack_offset: 0,
                 closure: std::ptr::null_mut(),
+                closure_object: std::ptr::null_mut(),
             })
             .map_err(|_| ExecutionErrorPayload::CallStackOverflow)
             .map_err(|pl| ExecutionError::new(pl, Default::default()))?;
